@@ -192,11 +192,11 @@ def gen_tree(rng, depth=0, big=0):
     for _ in range(rng.randint(0, 3)):
         an = rng.choice(["ID", "Version", "Destination", "IssueInstant", "{urn:c14:ext}flag", "{http://www.w3.org/XML/1998/namespace}lang", "x"])
         attrs[an] = gen_xml_text(rng)
-    text = gen_xml_text(rng, 16 + big)
+    text = gen_xml_text(rng, 16 + big)         # `big` makes ONE long text node (the root's)
     children = []
     if depth < 3:
         for _ in range(rng.randint(0, 3 if depth else 4)):
-            children.append(gen_tree(rng, depth + 1, big))
+            children.append(gen_tree(rng, depth + 1, 0))
     tail = rng.choice(["", "", "\n", "\n  ", gen_xml_text(rng, 6)]) if depth else ""
     return [tag, sorted([k, v] for k, v in attrs.items()), text, children, tail]
 
@@ -287,7 +287,7 @@ def gen_message(rng, tier, soap=False):
         return txt, cstr(canon_el(ET.fromstring(txt.encode("utf-8")))), tag
     big = 0
     if c == 3:
-        big = rng.choice([200, 200, 2000, 2000, 20000]) if tier == "quick" else rng.choice([200, 2000, 2000, 20000, 60000])
+        big = rng.choice([200, 2000, 2000, 20000, 60000]) if tier == "quick" else rng.choice([200, 2000, 20000, 60000, 250000])
     t = gen_tree(rng, 0, big)
     if soap:
         t = json.loads(json.dumps(t).replace("\\r", ""))
@@ -461,6 +461,14 @@ def gen_cases(rng, tier):
             expected = [tag] if e < 2 else [tag, "{%s}Other" % SAMLP] if e == 2 else ["{%s}Other" % SAMLP]
             yield {"op": "soap", "thingy": msg, "tree": tree, "tag": tag, "expected": expected, "headers": [],
                    "via": rng.choice(["pack", "apply_binding"])}
+        elif c < 8 and rng.random() < 0.25:
+            # the literal text of pack.PREFIX inside a CDATA section of the message (known finding)
+            inner = PREFIX_TEXT if rng.random() < 0.7 else "a" + PREFIX_TEXT + gen_xml_text(rng, 4).replace("]", "")
+            body = '<ext:Item xmlns:ext="urn:c14:ext"><![CDATA[%s]]></ext:Item>' % inner
+            decl = rng.choice(DECLS)
+            yield {"op": "soap", "thingy": decl + (rng.choice(DECL_SEP) if decl else "") + body,
+                   "tree": cstr(["{urn:c14:ext}Item", [], inner, [], ""]), "tag": "{urn:c14:ext}Item",
+                   "expected": ["{urn:c14:ext}Item"], "headers": [], "via": "pack"}
         elif c < 8:
             # library-made message through Entity.unravel(…, BINDING_SOAP, msgtype)
             msg, tag = library_message(rng)
@@ -519,6 +527,18 @@ def gen_cases(rng, tier):
     his = range(256) if not q else sorted(set([0, 9, 10, 13, 32, 43, 45, 48, 57, 65, 70, 71, 95, 97, 102, 103, 255] + [rng.randrange(256) for _ in range(16)]))
     for hi in his:
         yield {"op": "art_fields", "hi": hi}
+
+
+PREFIX_TEXT = '<?xml version="1.0" encoding="UTF-8"?>'     # the value of saml2.pack.PREFIX the finding is about
+
+
+def _soap_spliced(thingy):
+    """The message as make_soap_enveloped_saml_thingy splices it, before its PREFIX removal."""
+    if thingy[0:5].lower() == "<?xml":
+        end = thingy.find("?>")
+        if end != -1:
+            thingy = thingy[end + 2:].lstrip()
+    return thingy
 
 
 MSGTYPES = {
@@ -842,6 +862,10 @@ def finding_key(case, impl, lean):
             return "C14/redirect-destination-fragment"
         if "?" in loc and not _raw_query(stripped):
             return "C14/redirect-destination-empty-query"
+    if case["op"] == "soap" and not case.get("as_object") and case.get("tree") is not None:
+        from saml2 import pack
+        if pack.PREFIX and pack.PREFIX in _soap_spliced(case["thingy"]):
+            return "C14/soap-prefix-text-removed"
     return None
 
 
